@@ -49,6 +49,8 @@ SNIPPETS = [
     'type T { #[address(9223372036854775807)] a: u64 }', 'type T { a: *mut Array<SharedPtr<Item>>>, b: Foo<Bar<>>>> }',
     'type T { a: Foo>, b: Foo<<>, c: Foo<, d: <> }', 'type T { a: Map<K, V>, b: Vec<> } impl T { #[address(1)] fn f(&self, a: Foo>>) -> Bar<; }',
     'extern type Shared<T>>; pub extern g: Shared>;',
+    'type T { vftable { fn f(&self); }, a: Missing }', 'type A { vftable { fn f(&self); }, b: B } type B { a: A, p: *const AVftable }',
+    'type A { vftable { fn f(&self); }, #[base] b: B } type B { vftable { fn f(&self); }, #[base] a: A }',
     '#[size(4), align(4)] pub type Header { pub id: u32, pub end: void }', 'type V { a: void, b: u8 } type W { v: V, a: [void; 4], p: *const void }',
     '#[align(2)] type V { a: void }  enum E: void { A }', 'enum E: u64 { A = 9223372036854775807, B }', 'enum E: i8 { A = -128, B = 127, C }',
 ]
